@@ -56,7 +56,18 @@ def gen_new(rng, nrows=None, nfields=None):
     n = rng.choice([0, 1, 2, 3, 3, 5, 8, 13, 20, 50]) if nrows is None else nrows
     k = rng.randrange(1, 6) if nfields is None else nfields
     names = rng.sample(range(len(UNIVERSE)), k)
-    return {'op': 'new', 'cols': [[nm, gen_col(rng, n)] for nm in names]}
+    return {'op': 'new', 'cols': [[nm, gen_col(rng, n)] for nm in names], 'nocopy': rng.random() < 0.3}
+
+
+def ref_legal(tabs, op):
+    """the reference-world counterpart of store_fixtures.legal"""
+    if op['op'] != 'setSel':
+        return True
+    t, d = tabs[op['c']], tabs[op['d']]
+    cs = [id(t.cells[n]) for n in t.names]
+    if op['c'] == op['d']:
+        return len(set(cs)) == len(cs)
+    return not (set(cs) & set(id(d.cells[n]) for n in d.names))
 
 
 def gen_sequence(rng, length):
@@ -64,6 +75,8 @@ def gen_sequence(rng, length):
     tabs, ops = [], []
 
     def emit(op):
+        if not ref_legal(tabs, op):
+            return
         ops.append(op)
         sf.ref_apply(tabs, op)
 
@@ -92,8 +105,8 @@ def gen_sequence(rng, length):
         newname = lambda: rng.choice(have if (bad and have) or not other else other)   # noqa: E731
         k = rng.choice(['append', 'append', 'appendField', 'setItem', 'setItem', 'removeField', 'rename', 'rename',
                         'tidyUp', 'getSel', 'getSel', 'setSel', 'setSel', 'sortBy', 'sortBy', 'copy', 'setDtype',
-                        'convert', 'indices', 'indices', 'new'])
-        if k in ('getSel', 'copy', 'new') and len(tabs) >= 6:
+                        'convert', 'indices', 'indices', 'new', 'appendFieldFrom', 'setItemFrom', 'setItemFrom', 'newShared'])
+        if k in ('getSel', 'copy', 'new', 'newShared') and len(tabs) >= 6:
             k = 'indices'
         if k == 'append':
             # partners having all fields of t (unless a bad one is wanted); bounded growth
@@ -154,6 +167,16 @@ def gen_sequence(rng, length):
             emit({'op': 'indices', 'c': c})
         elif k == 'new':
             emit(gen_new(rng))
+        elif k in ('appendFieldFrom', 'setItemFrom'):
+            # the handed-in array IS a column of the same table or of another live table (same length preferred)
+            cand = [(i, UNIVERSE.index(nm)) for i, d in enumerate(tabs) for nm in d.names if bad or d.n == t.n]
+            if not cand:
+                continue
+            d, m = rng.choice(cand)
+            n = newname() if k == 'appendFieldFrom' else (rng.choice(have + other[:1]) if have else newname())
+            emit({'op': k, 'c': c, 'n': n, 'd': d, 'm': m})
+        elif k == 'newShared':
+            emit({'op': 'newShared', 'd': c, 'm': anyname()})
     return ops
 
 
@@ -175,8 +198,9 @@ EXH_ALPHABET = [
     {'op': 'removeField', 'c': 0, 'n': 1},
     {'op': 'setItem', 'c': 0, 'n': 1, 'col': {'dt': 'b', 'v': [1, 0]}},
     {'op': 'copy', 'c': 0, 'keep': [1]},
-    {'op': 'setDtype', 'c': 0, 'n': 0, 'dt': 'f32'},
-    {'op': 'append', 'c': 1, 'd': 0},
+    {'op': 'appendFieldFrom', 'c': 0, 'n': 2, 'd': 0, 'm': 0},          # a column of the table itself handed in again
+    {'op': 'setItemFrom', 'c': 0, 'n': 1, 'd': -1, 'm': 0},             # a column of another live table handed in
+    {'op': 'newShared', 'd': 0, 'm': 0},                                # the caller keeps t[0] (copy=False constructor)
 ]
 
 
@@ -190,19 +214,39 @@ def resolve(op, nconts):
 # ------------------------------------------------------------------------------------------
 # property oracle: implementation vs. reference table
 
+def _bytes(arr):
+    return (str(arr.dtype), arr.shape, np.ascontiguousarray(arr).tobytes())
+
+
 def table_check(case):
     """None | (mode, opname, step, text)"""
-    conts, tabs = [], []
+    conts, tabs, held = [], [], []
     for k, op in enumerate(case['ops']):
         try:
             op = resolve(op, len(conts))
-            ri = sf.impl_apply(conts, op)
+            if not sf.legal(conts, op):
+                return None      # outside the model (see store_fixtures.legal)
+            # arrays the caller legitimately holds: handed in / kept earlier, and the columns of all containers
+            before = [('caller-held array #%d' % i, a, _bytes(a)) for i, a in enumerate(held)]
+            tgt = op.get('c') if op['op'] not in ('getSel', 'copy', 'new', 'newShared') else None
+            tgt_arrays = sf.cont_arrays(conts[tgt]) if tgt is not None and 0 <= tgt < len(conts) else []
+            for ci, a in enumerate(conts):
+                if ci != tgt:
+                    before += [('column %r of container %d' % (n, ci), a[n], _bytes(a[n])) for n in a.field_name_list if n in a]
+            ri = sf.impl_apply(conts, op, held)
             impl_perm = ri[1][1] if (op['op'] == 'sortBy' and ri[0] == 'ok') else None
             rr = sf.ref_apply(tabs, op, impl_out=impl_perm)
         except (IndexError, AssertionError):
             return None          # malformed (shrunk) case
         name = op['op']
         where = 'step %d (%s)' % (k, sf.op_line(op, impl_perm))
+        # every other table and every caller-held array is byte-identical unless the operation writes through
+        for what, arr, b in before:
+            if _bytes(arr) != b:
+                if name == 'setSel' and sf.shares([arr], tgt_arrays):
+                    continue     # set_selection is documented to assign into the arrays of its target
+                return ('modified-in-place', name, k, '%s: %s was modified in place (%r -> %r) although %s rebinds its columns' % (
+                    where, what, np.frombuffer(b[2], dtype=arr.dtype).tolist()[:8], arr.tolist()[:8], name))
         if rr == ('err', 'perm'):
             return ('bad-permutation', name, k, '%s: sort_by_field returned %r which is not a sorting permutation of the key column' % (where, impl_perm))
         if ri[0] != rr[0] or (ri[0] == 'err' and ri[1] != rr[1]):
@@ -219,9 +263,16 @@ def table_check(case):
                     mode = 'changed-on-error/' + mode
                 return (mode, name, k, '%s: container %d differs from the plain table in %r after %s: container %r, table %r' % (
                     where, ci, d, 'the failed operation' if ri[0] == 'err' else 'the operation', got[d], want[d]))
-        sh = sf.sharing(conts)
-        if sh:
-            return ('shared-memory', name, k, '%s: columns share memory: %r' % (where, sh[:3]))
+        # memory sharing: exactly the slots that were bound to one handed-in array object
+        sh = sorted(sorted(p) for p in sf.sharing(conts))
+        cells = {}
+        for ci, t in enumerate(tabs):
+            for n in t.names:
+                if t.cells[n].a.size:
+                    cells.setdefault(id(t.cells[n]), []).append([ci, n])
+        want_sh = sorted(sorted([v[i], v[j]]) for v in cells.values() for i in range(len(v)) for j in range(i + 1, len(v)))
+        if sh != want_sh:
+            return ('shared-memory', name, k, '%s: columns sharing memory: %r, expected from the arrays handed in: %r' % (where, sh[:3], want_sh[:3]))
     return None
 
 
@@ -256,6 +307,8 @@ def corr_prepare(ops):
     conts, lines, recs = [], ['reset'], []
     for op in ops:
         op = resolve(op, len(conts))
+        if not sf.legal(conts, op):
+            break
         ri = sf.impl_apply(conts, op)
         perm = ri[1][1] if (op['op'] == 'sortBy' and ri[0] == 'ok') else None
         lines.append(sf.op_line(op, perm))
@@ -264,8 +317,9 @@ def corr_prepare(ops):
 
 
 def corr_eval(lines, recs, out):
+    taint = [False]
     for k, ((op, ri, snaps, share), ans) in enumerate(zip(recs, out[1:])):
-        d = compare_step(op, ri, snaps, share, ans)
+        d = compare_step(op, ri, snaps, share, ans, taint)
         if d:
             return 'step %d (%s): %s' % (k, lines[k + 1], d)
     return None
@@ -277,13 +331,16 @@ def corr_sequence(ctx, ops):
     return corr_eval(lines, recs, ctx.driver('C16', lines))
 
 
-def compare_step(op, ri, snaps, share, ans):
+def compare_step(op, ri, snaps, share, ans, taint=None):
+    """taint: one-element list, set once a set_selection wrote through a shared location: from then on the plain-table
+    layer (handed-in arrays by value) is no longer the reference, only the heap layer is"""
+    taint = taint if taint is not None else [False]
     if ans == 'bad-op':
         return 'driver does not understand the request'
     head, hd, td = ans.split(' | ')
     hres, tres = [sf.parse_res(x.split('=', 1)[1], op['op']) for x in head.split(' ')]
     ri = tuple(ri)
-    for nm, mr in (('heap model', hres), ('table model', tres)):
+    for nm, mr in (('heap model', hres),):
         if (ri[0], list(ri[1]) if ri[0] == 'ok' else ri[1]) != (mr[0], mr[1]):
             # the heap model returns the cached index array as it is; same values
             return 'implementation answers %r, %s answers %r' % (ri, nm, mr)
@@ -291,17 +348,23 @@ def compare_step(op, ri, snaps, share, ans):
     ts = sf.parse_T(td)
     if len(hs) != len(snaps) or len(ts) != len(snaps):
         return 'number of containers: implementation %d, heap model %d, table model %d' % (len(snaps), len(hs), len(ts))
+    byloc = {}
+    for ci, nm, loc in locs:
+        byloc.setdefault(loc, []).append([ci, nm])
+    if op['op'] == 'setSel' and any(len(v) > 1 for v in byloc.values()):
+        taint[0] = True
+    shared = taint[0]
     for ci, (g, h, t) in enumerate(zip(snaps, hs, ts)):
         d = sf.snap_diff(g, h)
         if d:
             return 'container %d, %r: implementation %r, heap model %r' % (ci, d, g[d], h[d])
-        d = sf.snap_diff(g, t)
+        # the plain-table layer takes handed-in arrays by value: it is the reference only while no location is shared
+        d = None if shared else sf.snap_diff(g, t)
         if d:
             return 'container %d, %r: implementation %r, table model %r' % (ci, d, g[d], t[d])
-    byloc = {}
-    for ci, nm, loc in locs:
-        byloc.setdefault(loc, []).append([ci, nm])
-    pred = sorted(sorted(v)[:2] for v in byloc.values() if len(v) > 1)
+    empty = set((ci, c[0]) for ci, g in enumerate(snaps) for c in g['cols'] if c[2] is not None and len(c[2]) == 0)
+    pred = sorted(sorted([v[i], v[j]]) for v in byloc.values() for i in range(len(v)) for j in range(i + 1, len(v))
+                  if (v[i][0], v[i][1]) not in empty)
     if sorted(sorted(p) for p in share) != pred:
         return 'memory sharing between columns: implementation %r, heap model predicts %r' % (share[:3], pred[:3])
     return None
@@ -343,6 +406,9 @@ def _exh_chunk(ctx, depth, alphabet, first):
                 continue
             cs = copy.deepcopy(conts)
             op = resolve(op0, len(cs))
+            if not sf.legal(cs, op):
+                ctx.count('exhaustive:skipped(set_selection source shares memory with target)')
+                continue
             ri = sf.impl_apply(cs, op)
             perm = ri[1][1] if (op['op'] == 'sortBy' and ri[0] == 'ok') else None
             lines.append('push')
@@ -356,12 +422,15 @@ def _exh_chunk(ctx, depth, alphabet, first):
     out = [a for a, l in zip(ctx.driver('C16', lines), lines) if l not in ('reset', 'push', 'pop')]
     assert len(out) == len(nodes)
     bad = []
+    tainted = {(): False}
     for (path, op, ri, snaps, share), ans in zip(nodes, out):
+        taint = [tainted.get(path[:-1], False)] if path else [False]
         if not path and first:
             continue
         ctx.count('exhaustive:len=%d' % len(path))
         ctx.case(key=('exh', len(alphabet), path), desc={'exhaustive_path': [alphabet[i]['op'] for i in path]} if len(path) == depth and ctx.evaluations % 40001 == 0 else None)
-        d = compare_step(op, ri, snaps, share, ans)
+        d = compare_step(op, ri, snaps, share, ans, taint)
+        tainted[path] = taint[0]
         if d:
             bad.append((path, d))
     return bad
@@ -390,7 +459,8 @@ def run(ctx):
                 'remove_field, rename_fields, tidy_up, get_selection/__getitem__, set_selection/__setitem__, sort_by_field, copy, '
                 'set_field_dtype, convert_dtypes, indices, constructor) on 1..6 containers with 0..50 rows, 1..5 fields of '
                 'bool/int16/int64/float32/float64; ~12% of the operations are invalid on purpose (missing field, wrong length, '
-                'bad index). Bounded-exhaustive: all sequences over a 14-letter alphabet of concrete operations; random: '
+                'bad index); append_field / __setitem__ / constructor(copy=False) also with an array that already is a column of the same or of '
+                'another live container or that the caller keeps. Bounded-exhaustive: all sequences over a 15-letter alphabet of concrete operations; random: '
                 'lengths up to 40. Distinct = distinct operation sequence.')
     ctx.trusted_base += ['correspondence harness harness/props/c16.py + harness/store_fixtures.py (exact comparison)',
                          'numpy fancy indexing / np.append promotion / astype as modelled in Model/Store.lean (compared on every run)',
@@ -404,8 +474,8 @@ def run(ctx):
     ctx.extra['exhaustive_depth'] = depth
     ctx.extra['exhaustive_alphabet'] = len(alphabet)
     if ctx.thorough:
-        # length 6 (the bound of the quantifier) over the 8 letters that mutate container 0 or raise
-        small = [EXH_ALPHABET[i] for i in (0, 1, 2, 3, 5, 6, 7, 9)]
+        # length 6 (the bound of the quantifier) over 9 letters (append, selection, in-place assignment, sort, raising rename, remove, and the three that hand in shared arrays)
+        small = [EXH_ALPHABET[i] for i in (0, 3, 5, 6, 7, 9, 12, 13, 14)]
         bad += [(p, d, small) for p, d in exhaustive(ctx, 6, small)]
         ctx.extra['exhaustive_depth_small_alphabet'] = 6
         ctx.extra['exhaustive_small_alphabet'] = len(small)
